@@ -850,10 +850,19 @@ class Manager:
             elif isinstance(value, ExceptionWrapper):
                 self.unregisterTask((event, task, parent))
                 if parent:
+                    # the handler continues after the timeout exactly as
+                    # it does after a call that returned (CallValue above)
                     value = parent.throw(value.extract())
-                    if value is not None:
-                        value_generator = (val for val in (value,))
-                        self.registerTask((event, value_generator, parent))
+                    if isinstance(value, GeneratorType):
+                        task_state = next(value)
+                        task_state.task_event = event
+                        task_state.task = value
+                        task_state.parent = parent
+                    else:
+                        event.waitingHandlers -= 1
+                        if value is not None:
+                            event.value.value = value
+                        self.registerTask((event, parent, None))
                 else:
                     raise value.extract()
             elif isinstance(value, Sleep):
